@@ -494,12 +494,13 @@ class RefParser:
         name_i = self.i
         name = self.toks[self.i].t
         self.i += 1
-        if b'|' in name or b'=' in name:
-            # a quoted name that looks like a path is resolved by the path machinery.  What an assignment through a path means is
-            # not part of C01; but a path that does not resolve names nothing: it is an unknown name like any other
+        if (b'|' in name or b'=' in name) and not (sec.keystrval and not self.ignore_unknown):
+            # a name that looks like a path is resolved by the path machinery.  What an assignment through a path means is
+            # not part of C01; but a path that does not resolve names nothing: it is an unknown name like any other.
+            # (Inside a free-form section a name is a key, whatever it looks like: that case takes the normal route below.)
             import refpath
             r = refpath.resolve(sec, name, 'opt')
-            if r != refpath.NOTFOUND or sec.keystrval:
+            if r != refpath.NOTFOUND:
                 raise _Stop(UNSPEC, name_i, 'name looks like a path')
             if self.ignore_unknown:
                 self.skip_unknown(depth)
